@@ -5,7 +5,7 @@
    3. [mle]: every step is monotone in the fuel -> [walk_fuel_mono]: more fuel never changes an accepted answer.
    4. [walk_ok_sound]: the boolean of the tie composed with the proved [extents_ok_sound]. *)
 From HV Require Import Base.Prelude Base.Outcome Base.Bytes Spec.Parse Spec.Format Spec.FormatMsg Spec.FormatNode
-  Model.Wellformed Proofs.Wellformed Spec.Walk.
+  Spec.FormatRef Model.Wellformed Proofs.Wellformed Spec.Walk.
 
 (* ================================================================== 1. extents stay inside the file *)
 Section Good.
@@ -13,21 +13,21 @@ Variable flen : N.
 
 Definition ext_good (x : xext) : Prop := fst (fst x) < snd (fst x) /\ snd (fst x) <= flen.
 Definition inv (st : wstate) : Prop := Forall ext_good (ws_ext st).
-Definition good {A} (m : W A) : Prop := forall st a st', m st = Ok (a, st') -> inv st -> inv st'.
+Definition good {A} (m : W A) : Prop := forall st a st', m st = WOk (a, st') -> inv st -> inv st'.
 
 Lemma good_ret {A} (a : A) : good (wret a).
 Proof. intros st a' st' H I. inversion H; subst; auto. Qed.
-Lemma good_err {A} : good (@werr A).
+Lemma good_err {A} c : good (@wfail A c).
 Proof. intros st a st' H; discriminate. Qed.
 Lemma good_bind {A B} (m : W A) (k : A -> W B) : good m -> (forall a, good (k a)) -> good (wbind m k).
 Proof.
-  intros Hm Hk st b st' H I. unfold wbind in H. destruct (m st) as [[a st1]| |] eqn:E; try discriminate.
+  intros Hm Hk st b st' H I. unfold wbind in H. destruct (m st) as [[a st1]|c] eqn:E; try discriminate.
   eapply Hk; eauto.
 Qed.
-Lemma good_wl {A} (o : outcome A) : good (wl o).
-Proof. intros st a st' H I. unfold wl in H. destruct o; inversion H; subst; auto. Qed.
-Lemma good_wguard c : good (wguard c).
-Proof. unfold wguard. destruct c; [apply good_ret | apply good_err]. Qed.
+Lemma good_wl {A} k (o : outcome A) : good (wlc k o).
+Proof. intros st a st' H I. unfold wlc in H. destruct o; inversion H; subst; auto. Qed.
+Lemma good_wguard k c : good (wguardc k c).
+Proof. unfold wguardc. destruct c; [apply good_ret | apply good_err]. Qed.
 Lemma good_wget {A} (g : wrest -> A) : good (wget g).
 Proof. intros st a st' H I. inversion H; subst; auto. Qed.
 Lemma good_wupd g : good (wupd g).
@@ -75,9 +75,9 @@ Ltac gd :=
           | |- good (wmapM _ _) => apply good_wmapM; intros ?
           | |- good (wforM _ _) => apply good_wforM; intros ?
           | |- good (wret _) => apply good_ret
-          | |- good werr => apply good_err
-          | |- good (wl _) => apply good_wl
-          | |- good (wguard _) => apply good_wguard
+          | |- good (wfail _) => apply good_err
+          | |- good (wlc _ _) => apply good_wl
+          | |- good (wguardc _ _) => apply good_wguard
           | |- good (match ?x with _ => _ end) => destruct x
           | |- good _ => solve [auto with gooddb]
           end).
@@ -131,6 +131,9 @@ Proof. unfold btree2_walk. gd. Qed.
 Hint Resolve good_fheap_walk good_btree2_walk : gooddb.
 Lemma good_dense_attrs d : good (dense_attrs f flen tol c d).
 Proof. unfold dense_attrs. gd. Qed.
+Lemma good_dense_links pad d : good (dense_links f flen tol c pad d).
+Proof. unfold dense_links. gd. Qed.
+Hint Resolve good_dense_links : gooddb.
 Lemma good_dataset_data cb lay esz dims total fl :
   (forall nd a t l, good (cb nd a t l)) -> good (dataset_data flen tol c cb lay esz dims total fl).
 Proof. intros Hc. unfold dataset_data. gd. Qed.
@@ -151,6 +154,7 @@ Proof. unfold finish. gd. Qed.
 Lemma good_walk_all f tol fuel : good (walk_all f flen tol fuel).
 Proof.
   unfold walk_all. apply good_bind. apply good_walk_superblock. intros sb. cbv zeta.
+  apply good_bind. { gd. apply good_ohdr_walk. } intros ks. cbv zeta.
   apply good_bind. apply good_walk_obj. intros _. apply good_bind. apply good_add_link. intros _.
   apply good_bind. apply good_finish. intros _. apply good_ret.
 Qed.
@@ -160,7 +164,7 @@ Lemma walk_extents_in_file : forall tol fuel f r, walk tol fuel f = Ok r ->
   Forall (fun x : xext => fst (fst x) < snd (fst x) /\ snd (fst x) <= blen f) (wr_extents r).
 Proof.
   intros tol fuel f r H. unfold walk, walk_run in H.
-  destruct (walk_all f (blen f) tol fuel st0) as [[sb st]| |] eqn:E; try discriminate.
+  destruct (walk_all f (blen f) tol fuel st0) as [[sb st]|c] eqn:E; try discriminate.
   inversion H; subst; cbn [wr_extents].
   apply (good_walk_all (blen f) f tol fuel st0 sb st E). constructor.
 Qed.
@@ -168,7 +172,7 @@ Qed.
 (* ================================================================== 2. never Panic *)
 Lemma walk_never_panics : forall tol fuel f, walk tol fuel f <> Panic.
 Proof.
-  intros tol fuel f. unfold walk, walk_run. destruct (walk_all f (blen f) tol fuel st0) as [[sb st]| |]; discriminate.
+  intros tol fuel f. unfold walk, walk_run. destruct (walk_all f (blen f) tol fuel st0) as [[sb st]|c]; discriminate.
 Qed.
 
 (* ================================================================== 4. the boolean of the tie *)
@@ -185,14 +189,14 @@ Proof.
 Qed.
 
 (* ================================================================== 3. more fuel never changes an accepted answer *)
-Definition mle {A} (m1 m2 : W A) : Prop := forall st r, m1 st = Ok r -> m2 st = Ok r.
+Definition mle {A} (m1 m2 : W A) : Prop := forall st r, m1 st = WOk r -> m2 st = WOk r.
 
 Lemma mle_refl {A} (m : W A) : mle m m.
 Proof. intros st r H; exact H. Qed.
 Lemma mle_bind {A B} (m1 m2 : W A) (k1 k2 : A -> W B) :
   mle m1 m2 -> (forall a, mle (k1 a) (k2 a)) -> mle (wbind m1 k1) (wbind m2 k2).
 Proof.
-  intros Hm Hk st r H. unfold wbind in *. destruct (m1 st) as [[a st1]| |] eqn:E; try discriminate.
+  intros Hm Hk st r H. unfold wbind in *. destruct (m1 st) as [[a st1]|c] eqn:E; try discriminate.
   rewrite (Hm _ _ E). apply Hk. exact H.
 Qed.
 Lemma mle_wmapM {A B} (g1 g2 : A -> W B) l : (forall x, mle (g1 x) (g2 x)) -> mle (wmapM g1 l) (wmapM g2 l).
@@ -204,7 +208,7 @@ Lemma mle_wforM {A} (g1 g2 : A -> W unit) l : (forall x, mle (g1 x) (g2 x)) -> m
 Proof.
   intros Hg. induction l as [|x l IH]; cbn [wforM]. apply mle_refl. apply mle_bind; auto.
 Qed.
-Lemma mle_err {A} (m : W A) : mle werr m.
+Lemma mle_err {A} c (m : W A) : mle (wfail c) m.
 Proof. intros st r H; discriminate. Qed.
 
 Create HintDb mledb.
@@ -268,13 +272,14 @@ End Mono.
 Lemma mle_walk_all f flen tol n : mle (walk_all f flen tol n) (walk_all f flen tol (S n)).
 Proof.
   unfold walk_all. apply mle_bind. apply mle_refl. intros sb. cbv zeta.
+  apply mle_bind. { mn. apply mle_ohdr_walk. } intros ks. cbv zeta.
   apply mle_bind. apply mle_walk_obj. intros _. apply mle_refl.
 Qed.
 
 Lemma walk_fuel_step : forall tol fuel f r, walk tol fuel f = Ok r -> walk tol (S fuel) f = Ok r.
 Proof.
   intros tol fuel f r H. unfold walk, walk_run in *.
-  destruct (walk_all f (blen f) tol fuel st0) as [[sb st]| |] eqn:E; try discriminate.
+  destruct (walk_all f (blen f) tol fuel st0) as [[sb st]|c] eqn:E; try discriminate.
   rewrite (mle_walk_all f (blen f) tol fuel st0 _ E). exact H.
 Qed.
 
